@@ -250,3 +250,5 @@ Definition molrec_eqb (a b : molrec) : bool :=
 
 Definition check_case (p : raw * outcome molrec) : bool :=
   outcome_eqb molrec_eqb (from_arrays (fst p)) (snd p).
+Definition molrec_eqb_ok (x : outcome molrec) (m : molrec) : bool :=
+  match x with Ok a => molrec_eqb a m | Err _ => false end.
